@@ -164,6 +164,12 @@ def run_stream(chk, prefix, replay=None):
     cases = vf.split_cases(trace, with_lines=True)
     hangs = sum(1 for c in cases.values() for e in c if e.get("hang"))
     chk.cov["hang_detector_fired"] = hangs
+    if "hang budget" in r["stderr"]:
+        # only a non-conforming implementation gets here (0 hangs on a conforming one); what was
+        # replayed up to the budget is judged, the rest is reported as not explored
+        chk.cov["replay_truncated_by_hang_budget"] = True
+        chk.cov["behaviours_not_replayed"] = len(behs) - len(cases)
+        chk.note(f"hang budget used up: {len(cases)} of {len(behs)} behaviours replayed")
     seen = set()
     for v in sorted(s["viol"], key=lambda v: (v["line"])):
         if not v["prop"].startswith(prefix):
